@@ -66,6 +66,8 @@ def _marker_maps(term):
 
 
 def run(db, chk) -> None:
+    from ..specs.discipline import check_facade_stateless
+    check_facade_stateless(db, chk, "C07.R-facade-stateless", ['get_comm_comp_overlap'])
     from ..specs.discipline import check_stateless
     check_stateless(db, chk, "C07.R-stateless", ['hta.analyzers.communication_analysis'])      # the result is a function of the arguments: no state kept between calls, caller's Trace untouched
     chk.floor("C07.R-stateless", 4)
